@@ -231,6 +231,18 @@ endmodule
   assign z = 1'b0;
 endmodule
 """, [], "t"
+    yield "nets-named-tie0-and-tie0_", """module t (a, b, y, z);
+  input a, b;
+  output y, z;
+  wire tie0, tie0_, tie1, tie1_;
+  not n0 (tie0, a);
+  or o1 (tie0_, tie0, b);
+  and a1 (tie1, a, b);
+  xor x1 (tie1_, tie1, 1'b1);
+  and a0 (y, tie0_, tie1_, 1'b1);
+  assign z = 1'b0;
+endmodule
+""", [], "t"
     yield "net-named-tie1-input", """module t (tie1, a, y);
   input tie1, a;
   output y;
@@ -295,6 +307,18 @@ def run(chk):
                 prob = {"problem": "module name differs", "fast": r[1].name, "full": full.name}
         chk.ob("C14.A.agreement", name, prob is None, file=FILE, func="fast_parse_verilog_netlist", line=fi.node.lineno, fact=prob or {"nodes": len(full.nodes())},
                expect="same inputs, outputs, blackbox pins and identical graph apart from constant node names")
+    # a rejected netlist must not influence the next parse (no state carried between calls)
+    bad_text = "module b (a, y);\n  input a;\n  output y;\n  wire w;\n  not n0 (w, a);\n  mystery u0 (.d(w), .q(y));\nendmodule\n"
+    good = [t for t in texts if t[0] == "yosys-underscore-names"][0]
+    r_bad = P.call(FILE, "fast_parse_verilog_netlist", bad_text, [])
+    r_good = P.call(FILE, "fast_parse_verilog_netlist", good[1], good[2])
+    try:
+        full = full_parse(P, good[1], good[2])
+        prob = {"problem": "fast parser raises after a previously rejected netlist", "result": str(r_good)[:160]} if r_good[0] != "return" else compare(full, r_good[1])
+    except ParseError as e:
+        prob = None
+    chk.ob("C14.A.no-state-between-parses", "rejected netlist, then a conforming one", prob is None and r_bad[0] == "raise", file=FILE, func="fast_parse_verilog_netlist", line=fi.node.lineno,
+           fact=prob or {"first_parse": str(r_bad)[:80]}, expect="the second parse equals the full parser's result")
     # through the public entry point
     name, text, bbs, mname = texts[0]
     r = P.call("io.py", "verilog_to_circuit", text, mname, False, bbs, False, False, True)
